@@ -3,12 +3,12 @@
    dropping the executor does to every task - while wakers and a runner race
    with it releases the future exactly once and the memory exactly once, after
    the last handle, with no access after the release. *)
-Require Import NX.Base.Prelude NX.Model.TaskSM NX.Model.TaskInv NX.Proofs.TaskProofs.
+Require Import NX.Base.Prelude NX.Model.TaskSM NX.Model.TaskInv NX.Proofs.TaskProofs NX.Proofs.TaskMeaning.
 
 Theorem c19_cancel_releases :
   forall ops s, s = ts_run init_forget ops \/ s = ts_run init_spawn ops ->
     inv_b s = true.
-Proof. intros ops s [->| ->]; apply ts_run_inv; [apply init_forget_inv|apply init_spawn_inv]. Qed.
+Proof. exact reachable_inv. Qed.
 Print Assumptions c19_cancel_releases.
 
 (* in particular, in any reachable state where every handle is gone the task
@@ -17,18 +17,7 @@ Theorem c19_no_leak_no_double_free :
   forall ops s, s = ts_run init_forget ops \/ s = ts_run init_spawn ops ->
     wakers s = 0 -> token s = false -> promise s = false -> queued s = 0 -> active s = 0 -> cdrop s = false ->
     alloc s = false /\ deallocs s = 1 /\ futdrops s = 1 /\ outdrops s <= 1 /\ badfree s = 0.
-Proof.
-  intros ops s Hs H1 H2 H3 H4 H5 H6.
-  assert (HI : inv_b s = true) by (destruct Hs as [->| ->]; apply ts_run_inv; [apply init_forget_inv|apply init_spawn_inv]).
-  unfold inv_b in HI.
-  repeat match goal with H : _ && _ = true |- _ => apply andb_true_iff in H; destruct H end.
-  destruct (alloc s) eqn:EA.
-  - repeat match goal with H : _ && _ = true |- _ => apply andb_true_iff in H; destruct H end.
-    exfalso. rewrite H1, H2, H3, H4, H5, H6 in *. cbn in *. discriminate.
-  - repeat match goal with H : _ && _ = true |- _ => apply andb_true_iff in H; destruct H end.
-    repeat match goal with H : Nat.eqb _ _ = true |- _ => apply Nat.eqb_eq in H | H : Nat.leb _ _ = true |- _ => apply Nat.leb_le in H end.
-    destruct (tcore s); try discriminate. cbn in *. repeat split; auto; lia.
-Qed.
+Proof. exact no_leak. Qed.
 Print Assumptions c19_no_leak_no_double_free.
 
 (* a cancel-heavy run: cancel while the runner is between its load and its poll *)
